@@ -36,10 +36,10 @@ class GlobSplitSplit(Contract):
     def P0(parts, attr):
         return pyvc.truthy(U('attr.' + attr, U('getitem', ObjV(pyvc.to_obj(parts)), Int(0))))
 
-    def prefix_wanted(self, parts):
+    def prefix_wanted(self, parts, st):
         f = self.f
         return z3.Or(z3.And(f['extmatchbase'], z3.Not(self.P0(parts, 'is_drive'))),
-                     z3.And(f['matchbase'], parts.a['length'] == 1, z3.Not(self.P0(parts, 'dir_only'))))
+                     z3.And(f['matchbase'], parts.a['length'] == 1, z3.Not(self.P0(parts, 'dir_only')), st.env['split_index'].a['length'] == 0))
 
     def long_prefix(self):
         return z3.And(self.f['globstarlong'], self.f['follow'])
@@ -91,9 +91,9 @@ class GlobSplitSplit(Contract):
                 lp = me.long_prefix()
                 star3 = z3.Or(pyvc.eq(pat, Str('***')), pyvc.eq(pat, Str('***', is_bytes=True)))
                 star2 = z3.Or(pyvc.eq(pat, Str('**')), pyvc.eq(pat, Str('**', is_bytes=True)))
-                ok = z3.And(idx.t == 0, me.prefix_wanted(parts), z3.Not(me.P0(parts, 'is_globstar')), z3.If(lp, star3, star2),
+                ok = z3.And(idx.t == 0, me.prefix_wanted(parts, st), z3.Not(me.P0(parts, 'is_globstar')), z3.If(lp, star3, star2),
                             pyvc.truthy(magic), pyvc.truthy(gs), pyvc.truthy(gsl) == lp, pyvc.truthy(donly), z3.Not(pyvc.truthy(drive)))
-            eng.oblige('_GlobSplit.split.implicit_prefix_inserted_only_for_rglob_(no_drive)_or_MATCHBASE_(one_part,_no_trailing_separator)_as_**_or_***_iff_GLOBSTARLONG_and_FOLLOW', st, ok, node)
+            eng.oblige('_GlobSplit.split.implicit_prefix_inserted_only_for_rglob_(no_drive)_or_MATCHBASE_(one_part,_no_separator_at_all)_as_**_or_***_iff_GLOBSTARLONG_and_FOLLOW', st, ok, node)
             st.ghost['$inserted'] = True
             st.ghost['$parts_before'] = parts
             return NONE
@@ -104,7 +104,7 @@ class GlobSplitSplit(Contract):
             if val.kind == 'tuple' and len(val.a['items']) == 6 and eng.dotted(target.value) == 'parts':
                 pat, magic, gs, gsl, donly, drive = val.a['items']
                 idx = eng.ev(target.slice, st)
-                ok = z3.And(idx.t == 0, me.prefix_wanted(parts), me.P0(parts, 'is_globstar'), me.long_prefix(), z3.Not(me.P0(parts, 'is_globstarlong')),
+                ok = z3.And(idx.t == 0, me.prefix_wanted(parts, st), me.P0(parts, 'is_globstar'), me.long_prefix(), z3.Not(me.P0(parts, 'is_globstarlong')),
                             z3.Or(pyvc.eq(pat, Str('***')), pyvc.eq(pat, Str('***', is_bytes=True))), pyvc.truthy(magic), pyvc.truthy(gs), pyvc.truthy(gsl),
                             pyvc.truthy(donly) == me.P0(parts, 'dir_only'), z3.Not(pyvc.truthy(drive)))
             eng.oblige('_GlobSplit.split.a_leading_**_is_absorbed_into_the_implicit_***_only_under_GLOBSTARLONG_and_FOLLOW_keeping_its_dir_only', st, ok, target)
@@ -142,7 +142,7 @@ class GlobSplitSplit(Contract):
             if g['$inserted'] or g['$replaced']:
                 return z3.BoolVal(True)          # necessity was an obligation at the site
             parts = c.st.env['parts']
-            return z3.Not(z3.And(me.prefix_wanted(parts), z3.Or(z3.Not(me.P0(parts, 'is_globstar')), z3.And(me.long_prefix(), z3.Not(me.P0(parts, 'is_globstarlong'))))))
+            return z3.Not(z3.And(me.prefix_wanted(parts, c.st), z3.Or(z3.Not(me.P0(parts, 'is_globstar')), z3.And(me.long_prefix(), z3.Not(me.P0(parts, 'is_globstarlong'))))))
 
         def no_abs(c):
             parts = c.st.env['parts'] if not (c.st.ghost['$inserted']) else None
